@@ -133,7 +133,7 @@ def install_router_loops(h):
     fr.ghost['opos'] = z3.If(grew, z3.Store(fr.ghost['opos'], srv, n0), fr.ghost['opos'])
   ip.loops[(Q, 0)] = LoopSpec('for (server, instance) in self.ring.get_nodes(key)', inv0, havoc0,
                               ghost_pre=pre0, ghost_step=step0,
-                              locals_modified=['server', 'instance', 'port'])
+                              locals_modified=[])
 
   # ---- loop 1: plain replication -------------------------------------------------------------
   def inv1(fr):
@@ -153,7 +153,7 @@ def install_router_loops(h):
     fr.gen_out.havoc(ip, 'dests')
     h.last = dict(out=fr.gen_out, frame=fr)
   ip.loops[(Q, 1)] = LoopSpec('for (count, node) in enumerate(self.ring.get_nodes(key))', inv1, havoc1,
-                              locals_modified=['count', 'node', 'server', 'instance', 'port'])
+                              locals_modified=[])
 
 
 def u_get_destinations(ctx, index):
@@ -273,7 +273,7 @@ def u_fast_get_nodes(ctx, index):
   def havoc(fr):
     fr.gen_out.havoc(h.ip, 'out')
   h.ip.loops[(FHR + '.get_nodes', 0)] = LoopSpec('for n in xrange(seed', inv, havoc,
-                                                locals_modified=['n'])
+                                                locals_modified=[])
   key = ctx.fresh(Atom, 'key')
   raised = None
   try:
